@@ -750,6 +750,10 @@ func (e *StatementExecutor) executeShowMeasurementsStatement(ctx *query.Executio
 			})
 		}
 		for _, dbInfo := range e.MetaClient.Databases() {
+			// Only include databases that the user is authorized to read.
+			if a := ctx.ExecutionOptions.CoarseAuthorizer; a != nil && !a.AuthorizeDatabase(influxql.ReadPrivilege, dbInfo.Name) {
+				continue
+			}
 			for _, rpInfo := range dbInfo.RetentionPolicies {
 				sources = append(sources, struct{ db, rp string }{dbInfo.Name, rpInfo.Name})
 			}
